@@ -79,6 +79,7 @@ func runC12(r *Run, rng *Rng, thorough bool) {
 			return
 		}
 		r.Case(class, false, "jenc "+d.Line(), "json="+tree.Proto())
+		jtextOne(r, class+"/text", j) // the model's reader on the bytes the library emitted
 		held.add("EncodeClaimsToJSON", j)
 		// documented member names, base64 for byte strings, absent optional claims omitted
 		if got, want := sortedMembers(tree), sortedMembers(jsonOf(&d)); got != want {
@@ -137,6 +138,7 @@ func runC12(r *Run, rng *Rng, thorough bool) {
 			r.Fail("cbor-json-cbor", fmt.Sprintf("CBOR->claims->JSON->claims->CBOR differs: %x vs %x (err %v)", b, b3, err))
 		}
 	})
+	jtextCases(r, rng, map[bool]int{false: 1500, true: 60000}[thorough])
 	extJSON(r, rng, map[bool]int{false: 400, true: 10000}[thorough])
 	evidenceJSON(r, rng, map[bool]int{false: 60, true: 1500}[thorough])
 	decodedThenChanged(r, rng, map[bool]int{false: 150, true: 4000}[thorough])
